@@ -11,6 +11,8 @@
  *
  * op file (slots 0..15; <e> = integer value, or id:value for Tuple elements; <i> = integer index):
  *   new <slot> <A|L|T|AS|LS> <e>*      del <slot>           copy <slot> <src>        dump on|off
+ *   layout <slot>                       (Arrays: element size, header, pointer size, rounded size, stride, offset of element nitems, the record
+ *                                       Array_Alloc zeroes there and where it puts the header, bytes of the block)
  *   push <slot> <e>     pop <slot>      pushat <slot> <e> <i>      popat <slot> <i>      append <slot> <e>
  *   get <slot> <i>      set <slot> <i> <e>     mem <slot> <v>      rem <slot> <v>        len <slot>
  *   concat <slot> <src>     assign <slot> <src>     resize <slot> <n>     sort <slot> <0|1|2|3>     iter <slot>
@@ -81,7 +83,7 @@ typedef struct { int kind; int gc; int stk; var obj; Ent* ref; size_t n, cap; } 
 static Slot* SL;                 /* points to main's local array: GC-managed copies stay visible to the stack scan */
 static int dump_on = 1;
 static size_t cur_line = 0, opcount = 0;
-static size_t st_ops, st_err, st_maxn, st_grow, st_shrink, st_sort, st_xs;
+static size_t st_ops, st_err, st_maxn, st_grow, st_shrink, st_sort, st_xs, st_layout;
 
 /* ---- Tuple element objects: Int objects with identity, carved from one block so that pointer -> id is arithmetic ---- */
 typedef struct { struct Header h; struct Int i; } PoolObj;
@@ -826,6 +828,31 @@ int main(int argc, char** argv) {
       V_TRY(exc, rem(s->obj, ARG(a, k == K_T ? K_A : k, pr, 1)));
       int found = 0; for (size_t i = 0; i < n; i++) if (s->ref[i].val == iv) { kpos = i; found = 1; break; }
       expect_exc(cmd, exc, found ? NULL : ValueError); if (found) ref_erase(s, kpos);   /* the FIRST equal element */
+    } else if (!strcmp(cmd, "layout") && nt == 2) {
+      /* record layout of an Array observed through the real Array_Step / Array_Item / Array_Alloc on a scratch block with the Array's
+         element type, length and capacity (the driver evaluates the expressions g_seq.py extracted from Array.c) */
+      if (!is_arr(k)) { O("bad-op"); continue; }
+      struct Array* a = s->obj; struct Array tmp = *a; size_t st = Array_Step(a), tot = st * (a->nitems + 2);
+      unsigned char* blk = malloc(tot); memset(blk, 0xAA, tot); tmp.data = blk;
+      Array_Alloc(&tmp, a->nitems);
+      size_t lo = tot, hi = 0, hd = tot;
+      for (size_t b = 0; b < tot; b++) if (blk[b] != 0xAA) { if (lo == tot) lo = b; hi = b; }
+      for (size_t b = 0; b + sizeof(struct Header) <= tot; b += sizeof(var)) if (((struct Header*)(blk + b))->type == a->type) { hd = b; break; }
+      char lb[240]; snprintf(lb, sizeof lb, "raw=%zu hdr=%zu ptr=%zu tsize=%zu step=%zu item=%td rec=%zu+%zu head=%zu bytes=%zu",
+        (size_t)size(a->type), sizeof(struct Header), sizeof(var), a->tsize, st, (char*)Array_Item(&tmp, a->nitems) - (char*)blk,
+        lo, lo == tot ? (size_t)0 : hi - lo + 1, hd, a->nslots * st);
+      free(blk); st_layout++;
+      { /* direct oracle: the textbook layout — the element size rounded up to the next multiple of the pointer size, one header in front
+           of each element, records back to back */
+        size_t raw = size(a->type), P = sizeof(var), Hd = sizeof(struct Header), want = raw % P ? raw + (P - raw % P) : raw, nn = a->nitems;
+        size_t it = (size_t)((char*)Array_Item(&tmp, nn) - (char*)blk);
+        if (a->tsize != want) XF("C04-layout", "element size %zu is stored in %zu bytes, expected %zu (next multiple of %zu)", raw, a->tsize, want, P);
+        else if (st != want + Hd || it != nn * st + Hd || lo != nn * st || hi - lo + 1 != st || hd != lo)
+          XF("C04-layout", "record %zu: stride %zu element at %zu zeroed %zu+%zu header at %zu, expected stride %zu element at %zu record %zu+%zu",
+             nn, st, it, lo, hi - lo + 1, hd, want + Hd, nn * (want + Hd) + Hd, nn * (want + Hd), want + Hd);
+      }
+      check_state(s, -1, force_iter);
+      emit(cmd, lb, s); continue;
     } else if (!strcmp(cmd, "len") && nt == 2) {
       volatile size_t L = 0; V_TRY(exc, L = len(s->obj)); expect_exc(cmd, exc, NULL);
       check_state(s, -1, force_iter);
@@ -970,7 +997,7 @@ int main(int argc, char** argv) {
     if (is_arr(k)) { size_t ns = ((struct Array*)s->obj)->nslots; if (ns > nslots0) st_grow++; else if (ns < nslots0) st_shrink++; }
     emit(cmd, res_of(exc, rb, sizeof rb), s);
   }
-  I("ops=%zu errors=%zu maxlen=%zu grow=%zu shrink=%zu sorts=%zu oracle_failures=%zu", st_ops, st_err, st_maxn, st_grow, st_shrink, st_sort, st_xs);
+  I("ops=%zu errors=%zu maxlen=%zu grow=%zu shrink=%zu sorts=%zu oracle_failures=%zu layouts=%zu", st_ops, st_err, st_maxn, st_grow, st_shrink, st_sort, st_xs, st_layout);
   for (int i = 0; i < NSLOT; i++) free_slot(&slots[i]);
   return 0;
 }
